@@ -1,6 +1,6 @@
 """What MANIFEST.json claims (kept apart from the check logic)."""
 TECHNIQUE = "Lean 4 proof over hand-written executable model + differential correspondence with the Go implementation"
-HOOK_COMMITS = ["6d567af", "1215bca", "9d3f334", "8c825b5", "596eb99"]
+HOOK_COMMITS = ["6d567af", "1215bca", "9d3f334", "8c825b5", "596eb99", "0b409e9"]
 NOTES = ("See DESIGN.md. Every check: lake build of the property module + axiom audit, harness rebuilt from /repo working "
          "tree with -tags verif, corpus + generated cases judged by the compiled Lean driver (model output and monitor predicate).")
 DEFAULT_NA = "machinery under construction in this round (design in DESIGN.md §6); not yet claimed"
